@@ -10,7 +10,8 @@ REGIONS = ("mmap::unix::MmapRegion", "mmap::xen::MmapRegion")
 # (regex over canonical callee, role -> argument index)
 PRIMS = [
     (re.compile(r"^(core|std)::ptr::write_volatile$|ptr::mut_ptr::write_volatile$"), {"dst": 0}, "write_volatile"),
-    (re.compile(r"^(core|std)::ptr::write(_unaligned|_bytes)?$|ptr::mut_ptr::write(_unaligned|_bytes)?$"), {"dst": 0}, "write"),
+    (re.compile(r"^(core|std)::ptr::write_bytes$|ptr::mut_ptr::write_bytes$"), {"dst": 0, "count": 2}, "write"),
+    (re.compile(r"^(core|std)::ptr::write(_unaligned)?$|ptr::mut_ptr::write(_unaligned)?$"), {"dst": 0}, "write"),
     (re.compile(r"^(core|std)::ptr::read_volatile$|ptr::(const|mut)_ptr::read_volatile$"), {"src": 0}, "read_volatile"),
     (re.compile(r"^(core|std)::ptr::read(_unaligned)?$|ptr::(const|mut)_ptr::read(_unaligned)?$"), {"src": 0}, "read"),
     (re.compile(r"^(core|std)::(ptr|intrinsics)::copy(_nonoverlapping)?$"), {"src": 0, "dst": 1, "count": 2}, "copy"),
